@@ -367,6 +367,7 @@ def rule_rescale(ctx):
                 if any(isinstance(x, ast.Constant) and x.value == "stack"
                        for x in ast.walk(nf.node))}
     stack_nodes, rescale, emax_name, rescale_pow = [], None, None, None
+    inverted = None
     for n in fl.cfg.nodes:
         if n.kind != "stmt" or n.ast is None:
             continue
@@ -384,6 +385,16 @@ def rule_rescale(ctx):
                 rescale = n
                 emax_name = pw[0].right.right.id
                 rescale_pow = pw[0]
+                # (seed C02_10) which of the two is the common exponent is decided by its definition
+                # (a `max(...)`), not by its position: `10 ** (emax - e)` has the sign inverted
+                lft = pw[0].right.left
+                if isinstance(lft, ast.Name):
+                    la_l = ctx.r.local_assignments(f).get(lft.id, [])
+                    la_r = ctx.r.local_assignments(f).get(emax_name, [])
+                    mx = lambda vs: any(isinstance(v, ast.Call) and dotted(v.func) == "max" for v in vs)  # noqa: E731
+                    if mx(la_l) and not mx(la_r):
+                        inverted = (lft.id, emax_name)
+                        emax_name = lft.id
     C.require(stack_nodes, "stacking step of gather_slices not recognised")
     key = ctx.key(f, "C19-RESCALE", "order")
     if rescale is None:
@@ -409,7 +420,14 @@ def rule_rescale(ctx):
                      and all(isinstance(x, ast.Name) for x in t.elts)]
             form_ok = isinstance(other, ast.Name) and any(
                 p_.elts[0].id == other.id and p_.elts[1].id == rescale_pow.right.left.id for p_ in pairs)
-        if istup and before and is_max and not form_ok:
+        if inverted:
+            form_ok = False
+        if istup and before and is_max and inverted:
+            r.violation(key, C.loc(f, rescale.ast), f"chunks are scaled by `10 ** ({inverted[0]} - {inverted[1]})`: the sign "
+                        f"is inverted — a chunk whose exponent lies below the common one is blown up instead of "
+                        f"scaled down (mantissa * 10 ** (own exponent - {inverted[0]}) is required); only visible when "
+                        f"the chunks of one output carry different exponents")
+        elif istup and before and is_max and not form_ok:
             r.violation(key, C.loc(f, rescale.ast), "chunks are not brought to the common exponent as "
                         "mantissa * 10 ** (exponent - emax): " + C.unparse(rescale.ast.value.value, 60))
         elif istup and before and is_max:
